@@ -39,6 +39,15 @@ Section Inv.
   Definition disk_inv (w : world) : Prop :=
     w_mode w = Fine /\ mt_unique w /\ clock_ok w /\ cache_addressed w /\ table_sound w.
 
+  (* rd' is rd with things removed or damaged: every cache entry / history file / table entry that
+     rd' shows was there before *)
+  Definition rdir_shrinks (rd rd' : rdir T) : Prop :=
+    (forall c' t f, rd_cache rd' = Some c' -> alookup teqb c' t = Some f ->
+                    exists c, rd_cache rd = Some c /\ alookup teqb c t = Some f) /\
+    (forall tbl', rd_table rd' = Some (SF_ok tbl') -> rd_table rd = Some (SF_ok tbl')) /\
+    (forall hs' t h, rd_hist rd' = Some hs' -> alookup teqb hs' t = Some (SF_ok h) ->
+                     exists hs, rd_hist rd = Some hs /\ alookup teqb hs t = Some (SF_ok h)).
+
   (* ---- the primitive steps on shared state ---- *)
 
   Inductive step : world -> world -> Prop :=
@@ -59,7 +68,9 @@ Section Inv.
       step w (write_table T w tbl)
   | SWriteHist w (hr : rule -> T) r h : step w (write_history T teqb hr w r h)
   | SInitDir w w' tbl : init_dir T w = Ok (w', tbl) -> step w w'
-  | STick w : step w (tick w).
+  | STick w : step w (tick w)
+  (* the user deletes or damages parts of the ruler directory (never adds decodable content) *)
+  | SUserRd w rd' : rdir_shrinks (w_rd w) rd' -> step w (set_rd w rd').
 
   (* ruler's own steps (everything except what commands / the user do) *)
   Inductive own_step : world -> world -> Prop :=
